@@ -23,7 +23,7 @@ CHECK = {
                  "thorough": {"cases": 600, "shards": 8, "soft_s": 420, "gomaxprocs": 8}}],
     "replay_timeout": 300,
     "floors": {"several_loads": 0.5, "ps_nonempty": 0.3},
-    "rule": "rapid-generated concurrent workloads (configuration + per-client request lists) executed in real time under the race detector; non-trivial = at least two runner loads happened and "
+    "rule": "Added in the last session: yields / short pauses at the instrumented lock statements and channel operations of sched.go and routes.go (perturbation seed per case); the fake runner paces its pieces and keeps producing for a few pieces after a cancellation. rapid-generated concurrent workloads (configuration + per-client request lists) executed in real time under the race detector; non-trivial = at least two runner loads happened and "
             "/api/ps was polled during the workload; distinct = distinct hash of the generated workload.",
     "assumptions": ["Go race detector (go1.26.8 -race)", "fake llm.LlamaServer", "interleavings sampled by the Go scheduler on 8 procs"],
 }
